@@ -39,6 +39,10 @@ class WSSession:
             if "key" not in hs:
                 hs["key"] = make_key(key_seed)
             self.key = hs.get("key")
+            self.prior = int(hs.pop("prior", 0) or 0)
+            for _ in range(self.prior):  # ordinary requests on the connection first
+                self.conn.send(b"GET /prior HTTP/1.1\r\nHost: example.com\r\n\r\n")
+                await env.settle(20.0)
             await deliver(env, self.conn, handshake_request(path=path, **hs), self.seg)
             await env.settle(20.0)
             self._parse_h1()
@@ -95,11 +99,12 @@ class WSSession:
 
     def _parse_h1(self) -> None:
         data = self.conn.received()
-        resps, leftover, err = parse_responses(data, ["GET"], self.conn.server_gone)
-        if err or not resps or resps[0].head_end == 0:
+        prior = getattr(self, "prior", 0)
+        resps, leftover, err = parse_responses(data, ["GET"] * (prior + 1), self.conn.server_gone)
+        if err or len(resps) <= prior or resps[prior].head_end == 0:
             self.status = None
             return
-        r = resps[0]
+        r = resps[prior]
         self.status = r.status
         self.headers = r.headers
         self.hs_end = r.head_end if r.status == 101 else r.end
